@@ -1013,6 +1013,7 @@ package serf
 //@ end
 
 //@ func (r *QueryResponse) Close()
+//@   logcalls closequery
 //@   requires wf: wfReplies(r)
 //@   ensures wf [C07]: wfReplies(r)
 //@   ensures both_streams_closed [C07]: r.closed && closed(r.respCh) && (r.ackCh != nil ==> closed(r.ackCh))
@@ -1341,6 +1342,7 @@ package serf
 //@   requires error_values: FeatureNotSupported != nil
 //@   oldlet q0 := callNOf("query")
 //@   oldlet sd0 := callNOf("shutdown")
+//@   oldlet cq0 := callNOf("closequery")
 //@   # the replies counted are the ones received on the response stream of the query this call issued
 //@   let ch := callResOf[*QueryResponse]("query", q0).respCh
 //@   oldlet ln0 := callNOf("localnode")
@@ -1352,11 +1354,14 @@ package serf
 //@           countRecv(ch, 0, recvN(ch), func(x NodeResponse) bool { return validConflictReply(x) })/2+1) &&
 //@       callNOf("shutdown") <= sd0+1
 //@   ensures query_failed_no_shutdown [C36]: !callRetOf("query", q0) ==> callNOf("shutdown") == sd0
+//@   # all replies count: the node reads the stream until the query has ended and the stream is empty, and never ends the
+//@   # query itself
+//@   ensures every_reply_counted [C36]: callRetOf("query", q0) ==> drained(ch) && callNOf("closequery") == cq0
 //@   loop 1 vars responses int, matching int, respCh <-chan NodeResponse, local *memberlist.Node
 //@   # malformed replies are ignored: the counters are exactly the numbers of valid replies and of valid replies naming this node
 //@   loop 1 invariant counted_valid [C36]: responses == countRecv(respCh, 0, recvN(respCh), func(x NodeResponse) bool { return validConflictReply(x) })
 //@   loop 1 invariant counted_mine [C36]: matching == countRecv(respCh, 0, recvN(respCh), func(x NodeResponse) bool { return conflictReplyIsMine(x, local) })
-//@   loop 1 invariant bounds [C36]: 0 <= matching && matching <= responses && recvN(respCh) >= 0 && callNOf("shutdown") == sd0 && callNOf("query") == q0+1
+//@   loop 1 invariant bounds [C36]: 0 <= matching && matching <= responses && recvN(respCh) >= 0 && callNOf("shutdown") == sd0 && callNOf("query") == q0+1 && callNOf("closequery") == cq0
 //@   loop 1 invariant same_stream [C36]: same(respCh, callResOf[*QueryResponse]("query", q0).respCh) && local != nil &&
 //@       local == callResOf[*memberlist.Node]("localnode", ln0) && callRetOf("query", q0)
 //@ end
